@@ -56,10 +56,11 @@ type State struct {
 	cheap T // SHeap: regions of cell-encoded struct slices (see cells.go); kept apart so that writing cells never touches bytes
 	nextR T // Int: next fresh region id
 	held  map[string]T
+	lockSnap *State // the state right after the most recent Lock of a monitored lock (read by atlock(); never modified)
 }
 
 func (s *State) clone() *State {
-	n := &State{pc: s.pc, heap: s.heap, cheap: s.cheap, nextR: s.nextR,
+	n := &State{pc: s.pc, heap: s.heap, cheap: s.cheap, nextR: s.nextR, lockSnap: s.lockSnap,
 		vars: make(map[types.Object]Val, len(s.vars)), ghost: make(map[string]Val, len(s.ghost)),
 		objs: make(map[int]Val, len(s.objs)), held: map[string]T{}}
 	for k, v := range s.vars {
@@ -335,6 +336,9 @@ func (fc *FnCtx) merge2(a, b *State) *State {
 	}
 	if a.cheap.S != b.cheap.S {
 		n.cheap = fc.define(ite(c, a.cheap, b.cheap), "C")
+	}
+	if a.lockSnap != b.lockSnap {
+		n.lockSnap = nil // the paths took the lock at different points: atlock() has no single reference state
 	}
 	if a.nextR.S != b.nextR.S {
 		n.nextR = fc.define(ite(c, a.nextR, b.nextR), "nextR")
